@@ -545,6 +545,10 @@ pub fn gen_file(r: &mut Rng, o: &FileOpts) -> GenFile {
         // no trailing newline
         let cut = nl.len();
         text.truncate(text.len() - cut);
+        // ... and blanks after the last token, or a last line made of blanks only
+        if r.chance(1, 3) {
+            text.push_str(*r.pick(&["  ", "\t", " \t ", "\n    ", "\n\t"]));
+        }
     }
     obj.spelling = spelling;
     GenFile { text, obj, lines }
